@@ -294,6 +294,9 @@ fn run_hand<T: Sc>(case: &C09Case) -> Check {
     out.nontrivial = triples.len() >= 4;
     out.class(format!("dry-fit:{}", dry.fit.term.tag()));
     out.class(case.base.flavour());
+    for r in case.base.regime() {
+        out.class(r);
+    }
     Ok(out)
 }
 
@@ -401,6 +404,9 @@ fn run_builder<T: Sc>(case: &C09Case) -> Check {
     out.nontrivial = injected >= 4;
     out.class("builder-scenario");
     out.class(base.flavour());
+    for r in base.regime() {
+        out.class(r);
+    }
     Ok(out)
 }
 
